@@ -4,6 +4,18 @@ against the frozen snapshot (rows may be added; existing (id, name, parameters) 
 algorithm tokens of each IANA name, and writes /verif/kani/pub_c12_rows.rs (one assertion set per row) and
 /verif/replay/src/gen_ciphers.rs (names for the by-name stand-in). Prints DATA-VIOLATION lines on stdout."""
 import os, re, sys
+def _write_if_changed(path, text):
+    """atomic, and only when the content differs: a check running next to this one never sees a half-written file, and
+    an unchanged generated file keeps its mtime (no needless rebuild)"""
+    try:
+        if open(path).read() == text:
+            return
+    except OSError:
+        pass
+    tmp = path + ".tmp%d" % os.getpid()
+    open(tmp, "w").write(text)
+    os.replace(tmp, path)
+
 VERIF = os.path.dirname(os.path.dirname(os.path.abspath(__file__)))
 REPO = os.environ.get("VERIF_REPO", "/repo")
 
@@ -107,12 +119,12 @@ def main():
     out.append("}")
     out.append("harness!(fd_c12_rows, unwind = 2, h_c12_rows);")
     nh = 1
-    open(os.path.join(VERIF, "kani", "pub_c12_rows.rs"), "w").write("\n".join(out) + "\n")
+    _write_if_changed(os.path.join(VERIF, "kani", "pub_c12_rows.rs"), "\n".join(out) + "\n")
     g = ["// GENERATED by bin/gen_c12.py. Do not edit.", "pub const ROWS: &[(u16, &str)] = &["]
     for r in rows:
         g.append('    (0x%04x, "%s"),' % (r["id"], r["name"]))
     g.append("];")
-    open(os.path.join(VERIF, "replay", "src", "gen_ciphers.rs"), "w").write("\n".join(g) + "\n")
+    _write_if_changed(os.path.join(VERIF, "replay", "src", "gen_ciphers.rs"), "\n".join(g) + "\n")
     for d in data_viol:
         print("DATA-VIOLATION: " + d)
     print("gen_c12: %d rows, %d row harnesses" % (len(rows), nh))
